@@ -185,7 +185,10 @@ def _run(mod, args, seed, t0):
 
     wall = time.time() - t0
     if not args.no_evidence:
-        cov = mod.summarize(tasks, results, tier, seed)
+        keep = [i for i, r in enumerate(results) if not r.get("sut_exception")]
+        cov = mod.summarize([tasks[i] for i in keep], [results[i] for i in keep], tier, seed)
+        cov["tasks_aborted_by_exception_in_code_under_test"] = len(results) - len(keep)
+        cov["seeds_per_hour"] = int(cov.get("evaluations", 0) / max(wall, 1e-9) * 3600)
         cov["determinism_selftest"] = selftest
         cov["known_findings_hit"] = sorted(known_hits)
         runs = cov.get("evaluations", 0)
